@@ -1,6 +1,7 @@
 mod c01;
 mod c02;
 mod c03;
+mod c11;
 mod c12;
 mod c15;
 mod c17;
@@ -28,6 +29,7 @@ fn engine_for(prop: &str) -> Box<dyn Engine> {
         "C02" => Box::new(c02::C02),
         "C03" => Box::new(c03::C03),
         "C10" => Box::new(gate::C10),
+        "C11" => Box::new(c11::C11),
         "C12" => Box::new(c12::C12),
         "C14" => Box::new(codec::C14),
         "C15" => Box::new(c15::C15),
